@@ -71,7 +71,7 @@ Definition wf_case (c : rcase) : bool :=
 
 (* ---- the property predicate on an annotation table (of the implementation, or of the model) ---- *)
 Definition oty_eqb (a b : option ty) : bool :=
-  match a, b with Some x, Some y => ty_eqb x y | None, None => true | _, _ => false end.
+  match a, b with Some x, Some y => corrb x y | None, None => true | _, _ => false end.
 
 Definition annos_denote (fds : list fdef) (imports_ok : bool)
            (table : list (string * list (string * (string * option ty)))) : bool :=
@@ -186,22 +186,52 @@ Definition kf_td_field_names : bool :=
   existsb (fun s => existsb (fun f => match imps ct (snd f) [] with [] => false | _ => true end) (cs_attrs s))
           the_cstubs.
 
+(* the forward reference of a generated class below a generic the renderer does not descend: it is rendered by
+   repr() as ForwardRef('...') (a generator function yielding a TypedDict: Iterator[<forward reference>]) *)
+Fixpoint fwd_hidden (t : ty) : bool :=
+  let fix has_fwd (t : ty) : bool :=
+      match t with
+      | TFwd _ => true
+      | TAny | TCls _ | TCallable => false
+      | TType x | TList x | TSet x | TIterator x | TTupleVar x => has_fwd x
+      | TDict k v | TDefaultDict k v => has_fwd k || has_fwd v
+      | TTuple ts | TUnion ts => existsb has_fwd ts
+      | TGenerator a b c => has_fwd a || has_fwd b || has_fwd c
+      | TTypedDict r o => existsb (fun f => has_fwd (snd f)) r || existsb (fun f => has_fwd (snd f)) o
+      end in
+  match t with
+  | TAny | TCls _ | TCallable | TFwd _ => false
+  | TType x | TIterator x => has_fwd x
+  | TDefaultDict k v => has_fwd k || has_fwd v
+  | TList x | TSet x | TTupleVar x => fwd_hidden x
+  | TDict k v => fwd_hidden k || fwd_hidden v
+  | TTuple ts | TUnion ts => existsb fwd_hidden ts
+  | TGenerator a b c => fwd_hidden a || fwd_hidden b || fwd_hidden c
+  | TTypedDict r o => existsb (fun f => fwd_hidden (snd f)) r || existsb (fun f => fwd_hidden (snd f)) o
+  end.
+Definition kf_fwd_not_descended : bool :=
+  existsb (fun f => existsb (fun p : param => match snd (fst p) with Some t => fwd_hidden t | None => false end)
+                            (fs_params f)
+                    || match fs_ret f with Some t => fwd_hidden t | None => false end) the_fstubs.
+
 (* the sequential str.replace of today's code and the repaired stripping disagree on some stub line *)
 Definition kf_prefix_overlap : bool :=
   negb (String.eqb (render_module_old ct own fds) (render_module ct own fds)).
 End Classes.
 
 (* classification of a failing case: bit 0 same_root_name, 1 td_not_descended, 2 nonetype_in_name,
-   3 typing_in_name, 4 hint_collision, 5 td_field_names, 6 prefix_overlap (old <> repaired stripping),
-   7 the MODEL's own output satisfies the property on this case (the failure is not explained by the model),
-   8 model and implementation differ on this case;  +512 so that the result is never 0 *)
+   3 typing_in_name, 4 hint_collision, 5 td_field_names, 6 fwd_not_descended,
+   7 prefix_overlap (old <> repaired stripping),
+   8 the MODEL's own output satisfies the property on this case (the failure is not explained by the model),
+   9 model and implementation differ on this case;  +1024 so that the result is never 0 *)
 Definition bit (b : bool) (n : nat) : nat := if b then n else 0.
 Definition classify (c : rcase) : nat :=
   let ct := rc_ct c in let own := rc_own c in let fds := rc_fds c in
-  512
+  1024
   + bit (kf_same_root_name ct own fds) 1 + bit (kf_td_not_descended fds) 2
   + bit (kf_nonetype_in_name ct fds) 4 + bit (kf_typing_in_name ct fds) 8
   + bit (kf_hint_collision ct fds) 16 + bit (kf_td_field_names ct fds) 32
-  + bit (kf_prefix_overlap ct own fds) 64
-  + bit (annos_denote fds (model_imports_ok c) (model_annos c)) 128
-  + bit (negb (model_ok c)) 256.
+  + bit (kf_fwd_not_descended ct fds) 64
+  + bit (kf_prefix_overlap ct own fds) 128
+  + bit (annos_denote fds (model_imports_ok c) (model_annos c)) 256
+  + bit (negb (model_ok c)) 512.
